@@ -69,7 +69,11 @@ def run_mutant(pid, m):
 		return res
 	finally:
 		res['wall_s'] = round(time.time() - t0, 1)
-		shutil.rmtree(tmp, ignore_errors=True)
+		if os.environ.get('VERIF_KEEP_SCRATCH'):
+			res['scratch'] = tmp
+			print('scratch kept:', tmp)
+		else:
+			shutil.rmtree(tmp, ignore_errors=True)
 
 def load(pid):
 	out = []
